@@ -125,19 +125,24 @@ LChoices(c) ==
     IN {NoneL, -3, 0, 1, nat, nat + 7, nat + 1, 100000}
        \cup {cum[i] : i \in 1..Len(cum)} \cup {cum[i] + 1 : i \in 1..Len(cum)} \cup {cum[i] - 1 : i \in 1..Len(cum)}
 
+\* (the requested length is chosen in the Compute step, not in Init: TLC enumerates initial states on one thread
+\* but successor states on all workers)
+Unset == -2000
 Init == /\ cps \in AllCps
-        /\ L \in LChoices(cps)
+        /\ L = Unset
         /\ R = [path |-> <<>>, lens |-> <<0>>] /\ done = FALSE
 
 Probes == {-2, 0, 1, 3, 4, 7, 8, 10}
 
 Compute ==
     /\ ~done /\ done' = TRUE
-    /\ R' = CalcLength(NaturalPath(cps), L)
-    /\ (Emit => PrintT("CASE " \o ToJson(
-            [cps |-> cps, L |-> L, nat |-> NaturalPath(cps), path |-> R'.path, lens |-> R'.lens,
-             pos |-> [k \in 1..13 |-> PosSeg(R', k - 3)]])))
-    /\ UNCHANGED <<cps, L>>
+    /\ \E l \in LChoices(cps) :
+        /\ L' = l
+        /\ R' = CalcLength(NaturalPath(cps), l)
+        /\ (Emit => PrintT("CASE " \o ToJson(
+                [cps |-> cps, L |-> l, nat |-> NaturalPath(cps), path |-> R'.path, lens |-> R'.lens,
+                 pos |-> [k \in 1..13 |-> PosSeg(R', k - 3)]])))
+    /\ UNCHANGED cps
 
 Next == Compute
 Spec == Init /\ [][Next]_vars
